@@ -165,6 +165,13 @@ def is_huge(k):
     return False
 
 
+def py_plain(v):
+    """the value as plain Python data: nested lists of ints / floats, str"""
+    if v["t"] == "l":
+        return [py_plain(x) for x in v["v"]]
+    return py_value(v)
+
+
 def run(tier, seed):
     import logging
     logging.disable(logging.CRITICAL)
@@ -306,6 +313,8 @@ def run(tier, seed):
                     val = valof(c, v)
                     if route == "top":
                         k(f"{v}::{canon.render(val)}")
+                    elif route == "pylist":
+                        k[v] = py_plain(val)
                     elif route == "py":
                         k[v] = py_value(val)
                     else:
